@@ -15,6 +15,7 @@ Line protocol for the WAMP message model (C03, C08).  Values travel as ONE token
   wamp.code <Class>            → type code
   wamp.typemap                 → the regenerated MESSAGE_TYPE_MAP as code:Class,…
   wamp.binary                  → the regenerated BINARY flags as name:0|1,…
+  wamp.speccode <Class>        → the WAMP protocol's type code of the class (spec table, not regenerated)
   batch.json <hex,hex,…>       → hex            unbatch.json <hex> → ok <hex,hex,…> | err <kind>
   batch.bin  <hex,hex,…>       → hex            unbatch.bin  <hex> → ok <hex,hex,…> | err <kind>
   (`-` = empty octet string, `.` = empty list)
@@ -79,6 +80,9 @@ def handle : List String → Option String
   | ["wamp.fields", c] => do
       let σ ← findSchema c
       pure (",".intercalate (σ.fieldNames.map str))
+  | ["wamp.speccode", c] => do
+      let e ← specCodes.find? (fun e => e.1 == c.toList)
+      pure (toString e.2)
   | ["wamp.binary"] =>
       pure (",".intercalate (Generated.WampCodes.serializerBinary.map (fun e => s!"{str e.1}:{boolStr e.2}")))
   | ["wamp.typemap"] =>
